@@ -39,42 +39,44 @@ type Obligation struct {
 }
 
 type Exec struct {
-	W        *World
-	fn       *ssa.Function
-	spec     *FuncSpec
-	beh      *Behavior
-	bv       bool
-	arr      bool
-	theory   string
-	obls     []*Obligation
-	paths    int
-	returns  int
-	quiet    int // >0: discovery mode, no obligations
-	errs     []string
-	ghost    map[string]Value
-	assumed  map[string]bool
-	callees  map[string]bool // contracts of callees this execution relied on (keys of World.Specs)
-	ordinal  map[ssa.Instruction]int
-	globals  map[string]*Obj
-	gvals    map[*Obj]Value
-	gfacts   []*Term
-	errIDs   map[string]*Term
-	maxPath  int
-	curPath  int
-	inl      []string // inline stack (names)
-	entry    *entryCtx
-	strs     map[string]*Term
-	trace    bool
-	retFacts [][]*Term
-	qctr     int
-	bufSrc   map[*Obj]*Obj
-	lazy     map[*Obj]Value
-	conns    map[*Term]*Obj
-	boxed    map[*Term]Value
-	sidx     map[*Term]bool
-	unfolded map[*Term]bool
-	recfact  map[*Term]bool
-	aliasOf  map[*Obj]*Obj
+	W          *World
+	fn         *ssa.Function
+	spec       *FuncSpec
+	beh        *Behavior
+	bv         bool
+	arr        bool
+	theory     string
+	obls       []*Obligation
+	paths      int
+	returns    int
+	quiet      int // >0: discovery mode, no obligations
+	errs       []string
+	ghost      map[string]Value
+	assumed    map[string]bool
+	ifaceFacts map[*Term]bool
+	symObjs    map[*Term]*Obj
+	callees    map[string]bool // contracts of callees this execution relied on (keys of World.Specs)
+	ordinal    map[ssa.Instruction]int
+	globals    map[string]*Obj
+	gvals      map[*Obj]Value
+	gfacts     []*Term
+	errIDs     map[string]*Term
+	maxPath    int
+	curPath    int
+	inl        []string // inline stack (names)
+	entry      *entryCtx
+	strs       map[string]*Term
+	trace      bool
+	retFacts   [][]*Term
+	qctr       int
+	bufSrc     map[*Obj]*Obj
+	lazy       map[*Obj]Value
+	conns      map[*Term]*Obj
+	boxed      map[*Term]Value
+	sidx       map[*Term]bool
+	unfolded   map[*Term]bool
+	recfact    map[*Term]bool
+	aliasOf    map[*Obj]*Obj
 }
 
 type entryCtx struct {
@@ -686,8 +688,50 @@ func (x *Exec) fromElem(st *State, e *Term, t types.Type) Value {
 		}
 	case *types.Interface:
 		return &IfaceVal{Sym: e, Typ: t}
+	case *types.Signature:
+		return &FuncVal{Name: "elem", Sym: e}
+	case *types.Pointer:
+		if _, ok := under(u.Elem()).(*types.Struct); ok {
+			return x.symPtr(st, e, u)
+		}
 	}
 	return e
+}
+
+// symPtr: a pointer read out of a slice element. Its target is an input-like object named by the element's identity
+// (the same identity term always gives the same object; different terms give objects with unrelated contents, which
+// over-approximates possible aliasing). Such objects are read-only: a store through them is outside the subset.
+func (x *Exec) symPtr(st *State, id *Term, pt *types.Pointer) *PtrVal {
+	if x.symObjs == nil {
+		x.symObjs = map[*Term]*Obj{}
+	}
+	o := x.symObjs[id]
+	if o == nil {
+		o = newObj(ObjCell, pt.Elem(), fmt.Sprintf("elt%d", len(x.symObjs)), false)
+		o.Opaque = true
+		o.SymID = id
+		x.symObjs[id] = o
+	}
+	return &PtrVal{Obj: o, Nil: Eq(id, IntLit(0))}
+}
+
+// funcID: the Int identity of a statically known top-level function.
+func (x *Exec) funcID(fn *ssa.Function) *Term { return x.W.tagNum("func:" + funcKey(fn)) }
+
+func (x *Exec) funcTerm(f *FuncVal) (*Term, bool) {
+	if f.Sym != nil {
+		return f.Sym, true
+	}
+	if f.Fn == nil {
+		if f.Name == "nil" {
+			return IntLit(0), true
+		}
+		return nil, false
+	}
+	if sf, ok := f.Fn.(*ssa.Function); ok && len(f.Bind) == 0 && sf.Parent() == nil {
+		return x.funcID(sf), true
+	}
+	return nil, false
 }
 
 // newByteSliceAbstract: a []byte element of a [][]byte stored by value; region identity is lost.
@@ -717,8 +761,15 @@ func (x *Exec) toElem(st *State, v Value, t types.Type) *Term {
 		x.boxed[id] = s
 		return id
 	case *PtrVal:
+		if s.Obj != nil && s.Obj.SymID != nil {
+			return s.Obj.SymID
+		}
 		id := Fresh("ptr", SInt)
 		return id
+	case *FuncVal:
+		if t, ok := x.funcTerm(s); ok {
+			return t
+		}
 	}
 	panic(unsupported(fmt.Sprintf("store of %T into array element of type %s", v, t)))
 }
@@ -727,6 +778,9 @@ func (x *Exec) store(st *State, in ssa.Instruction, p *PtrVal, v Value) {
 	x.safety(st, "nil", in, Not(p.Nil), "pointer not nil at store")
 	if p.Obj == nil {
 		return
+	}
+	if p.Obj.SymID != nil {
+		panic(unsupported("store through a pointer that was read out of a slice element (such objects are read-only in this model)"))
 	}
 	if p.InArr {
 		cur := x.cellValue(st, p.Obj)
@@ -1290,6 +1344,11 @@ func (x *Exec) valEq(st *State, a, b Value, t types.Type) *Term {
 		return And(cs...)
 	case *FuncVal:
 		bf := b.(*FuncVal)
+		if ta, ok := x.funcTerm(av); ok {
+			if tb, ok := x.funcTerm(bf); ok {
+				return Eq(ta, tb)
+			}
+		}
 		if bf.Fn == nil && bf.Name == "nil" {
 			return BoolLit(av.Fn == nil && av.Name == "nil")
 		}
@@ -1333,9 +1392,9 @@ func (x *Exec) ifaceEq(st *State, a, b *IfaceVal) *Term {
 			// a concrete pointer-typed error is never one of the package-level sentinel errors
 			return And(Ne(a.Sym, IntLit(0)), Eq(App("errtag", SInt, a.Sym), IntLit(0)), Fresh("ifaceeq", SBool))
 		}
-		if bt, ok := b.V.(*Term); ok && bt.S == SInt {
+		if bt, ok := b.V.(*Term); ok && (bt.S == SInt || bt.S.IsBV()) && isIntKinded(b.Dyn) {
 			// e.g. error compared with a concrete named-int error value (smpp.CMDStatus): identity by tag+value
-			return Eq(a.Sym, App("iface."+sanitize(b.Dyn.String()), SInt, bt))
+			return Eq(a.Sym, x.ifaceTerm(st, b.Dyn, bt))
 		}
 	}
 	return And(Ne(a.Sym, IntLit(0)), Fresh("ifaceeq", SBool))
@@ -1490,6 +1549,15 @@ func (x *Exec) typeAssert(st *State, fr *Frame, v *ssa.TypeAssert) Value {
 			return &TupleVal{Vs: []Value{r, BoolLit(ok)}}
 		}
 		x.safety(st, "assert", v, BoolLit(ok), "type assertion succeeds")
+		return r
+	}
+	if iv.Sym != nil && isIntKinded(v.AssertedType) {
+		okT := x.dynIs(st, iv, v.AssertedType)
+		r := x.dynValue(st, iv, v.AssertedType)
+		if v.CommaOk {
+			return &TupleVal{Vs: []Value{r, okT}}
+		}
+		x.safety(st, "assert", v, okT, "type assertion succeeds")
 		return r
 	}
 	okT := Fresh("assert.ok", SBool)
